@@ -35,6 +35,10 @@ def real_run(fedjax, n, bs, k, mode, drop, variant, chain, sliced=0):
     ds = fedjax.ClientDataset(raw, pre)
   before = bat.checksum(raw)
   style = (n + 2 * bs + k) % 3     # hyper-parameter object, keyword arguments only, or an object overridden by keywords
+  # sizes are whatever integers the caller has at hand: Python ints or NumPy integer scalars
+  bs_py, k_py = bs, k
+  bs = (bs, np.int64(bs), np.int32(bs))[(n + k) % 3]
+  k = (k, np.int32(k), np.int64(k))[(n + bs_py) % 3] if k is not None else k
   if mode == 'padded':
     if style == 0:
       view = ds.padded_batch(fedjax.PaddedBatchHParams(batch_size=bs, num_batch_size_buckets=k))
